@@ -92,6 +92,7 @@ Inductive event :=
 | EParentCancel
 | ERunReturn (r : result)
 | ERunEnter                                           (* the environment calls Run() *)
+| EEntered                                            (* evidence that Run() has set p.runEntered (its next log record was seen) *)
 | ESubscribe (c : nat)
 | ESubRecv (c : nat) (m : list (option st))
 | ESubCancel (c : nat)
@@ -444,6 +445,7 @@ Inductive label :=
 (* Main *)
 | LRunEnter                              (* visible: the environment calls Run() *)
 | LRunEntered                            (* tau: Run() sets p.runEntered and launches the managers (if the launch gate is open) *)
+| LSeenEntered                           (* visible: Run() was observed past its first critical section *)
 | LLaunch (i : nat)                      (* tau: wg.Go(runnable i); then gate or next *)
 | LPollBegin (i : nat)                   (* Main enters IsRunning(); reported only for slow answers *)
 | LPoll (i : nat) (b : bool)             (* IsRunning() answered b *)
@@ -500,11 +502,20 @@ Inductive label :=
 | LSubClosed (c : nat)                   (* the consumer observes the closed channel *)
 | LSubRel (i : nat)
 | LQuiet
-| LSnap (o : snapshot).
+| LSnap (o : snapshot)
+(* helper goroutines leaving on their own (ctx.Done / end of Shutdown).  The acceptor does not explore them (they are
+   not in [taus]: a helper's exit is observable only through its manager's join, which subsumes it - keeping the
+   frontier small); they exist so that theorems can say that every helper CAN leave and count it until it has *)
+| LRlsExit (i : nat)                     (* tau: reload-trigger listener i leaves on ctx.Done *)
+| LSlsExit (i : nat)                     (* tau: shutdown-trigger listener i leaves on ctx.Done *)
+| LMonExit (i : nat)                     (* tau: state monitor i leaves on ctx.Done (GetStateChan honours its context) *)
+| LHupExit                               (* tau: a 'go p.ReloadAll()' goroutine gives up on ctx.Done *)
+| LSdTrigExit.                           (* tau: a trigger-spawned 'go p.Shutdown()' goroutine returns once Shutdown is done *)
 
 Definition obs (l : label) : option event :=
   match l with
   | LRunEnter => Some ERunEnter
+  | LSeenEntered => Some EEntered
   | LPollBegin i => Some (EPollBegin i)
   | LPoll i b => Some (EPoll i b)
   | LMainReturn r => Some (ERunReturn r)
@@ -656,6 +667,8 @@ Definition step0 (c : config) (s : state) (l : label) : option state :=
       Some (set_main (match sd s with SdNot => start_managers c s1 | _ => s1 end) (MLaunch 0))
     | _ => None
     end
+  | LSeenEntered =>
+    if run_entered (aux s) then Some (with_hist s EEntered) else None
   | LLaunch i =>
     match main s with
     | MLaunch j =>
@@ -1041,6 +1054,34 @@ Definition step0 (c : config) (s : state) (l : label) : option state :=
     else None
   | LQuiet => None
   | LSnap _ => None
+  | LRlsExit i =>
+    match get LsAbsent (rls s) i with
+    | LsIdle | LsFwd =>
+      if ctx_done s then Some (set_listeners s (upd (rls s) i LsDone) (sls s) (sdm_done s) (stm_done s)) else None
+    | _ => None
+    end
+  | LSlsExit i =>
+    match get LsAbsent (sls s) i with
+    | LsIdle =>
+      if ctx_done s then Some (set_listeners s (rls s) (upd (sls s) i LsDone) (sdm_done s) (stm_done s)) else None
+    | _ => None
+    end
+  | LMonExit i =>
+    match mon_at s i with
+    | MoNot | MoFirst | MoLoop _ =>
+      if ctx_done s then Some (set_mon s (upd (mon s) i MoDone) (upd (mq s) i [])) else None
+    | _ => None
+    end
+  | LHupExit =>
+    match hup s with
+    | S h => if ctx_done s then Some (set_hup s h) else None
+    | O => None
+    end
+  | LSdTrigExit =>
+    match sd_trig s, sd s with
+    | S t, SdDone => Some (set_sd_trig s t)
+    | _, _ => None
+    end
   end.
 
 (* ------------------------------------------------------------------ label enumeration *)
@@ -1162,6 +1203,7 @@ Definition event_eqb (a b : event) : bool :=
   | ECall k o, ECall k' o' | ERet k o, ERet k' o' => Nat.eqb k k' && op_eqb o o'
   | EParentCancel, EParentCancel => true
   | ERunEnter, ERunEnter => true
+  | EEntered, EEntered => true
   | EQuiet, EQuiet => true
   | ERunReturn r, ERunReturn r' => result_eqb r r'
   | ESubRecv c0 m, ESubRecv c1 m' => Nat.eqb c0 c1 && smap_eqb m m'
@@ -1188,6 +1230,7 @@ Definition vis (c : config) (s : state) (e : event) : list label :=
   | EParentCancel => [LParentCancel]
   | ERunReturn r => [LMainReturn r]
   | ERunEnter => [LRunEnter]
+  | EEntered => [LSeenEntered]
   | ESubscribe c0 => [LSubscribe c0]
   | ESubRecv c0 m => [LSubRecv c0 m]
   | ESubCancel c0 => [LSubCancel c0]
